@@ -4,7 +4,7 @@
    Vectors other than the samples (energies, num_occurrences, extra data, info) are
    compared exactly, field by field, by the worker. *)
 From Coq Require Import List ZArith NArith QArith Qcanon Bool Arith String.
-From Dimod Require Import Base.Util Model.Poly Model.Comb Model.Ser Model.Coo.
+From Dimod Require Import Base.Util Model.Poly Model.Comb Model.Ser Model.Coo Model.InfoSer.
 Import ListNotations.
 
 Inductive case :=
@@ -23,7 +23,11 @@ Inductive case :=
 (* labels before, their serialised (JSON) form, labels after *)
 | KLabels (ls : list lbl) (ser : list jv) (back : list lbl)
 (* a float array as nested list, the `data` emitted by serialize_ndarray, the array after *)
-| KArr (a : farr) (j : jarr) (back : farr).
+| KArr (a : farr) (j : jarr) (back : farr)
+(* the info field: before, the `info` entry of the document the reader consumed, after.
+   Arrays are numbered by the worker (equal dtype, shape and values = equal number); the entries
+   data / data_type / shape / use_bytes of an array document are the leaf TDoc of that number *)
+| KInfo (before emitted after : tree nat nat).
 
 Definition quad_eqb (a b : nat * nat * Qc) : bool :=
   Nat.eqb (fst (fst a)) (fst (fst b)) && Nat.eqb (snd (fst a)) (snd (fst b)) && Qc_eqb (snd a) (snd b).
@@ -54,6 +58,51 @@ Definition coo_text_ok (n : nat) (vt0 : vartype) (header : bool) (before : obs)
      | None => false
      end.
 
+(* short names for the worker's terms *)
+Definition iArr := TArr nat nat.
+Definition iDoc := TDoc nat nat.
+Definition iInt := TInt nat nat.
+Definition iFloat := TFloat nat nat.
+Definition iStr := TStr nat nat.
+Definition iNone := TNone nat nat.
+Definition iBool := TBool nat nat.
+Definition iList := TList nat nat.
+Definition iDict := TDict nat nat.
+
+Fixpoint itree_eqb (a b : tree nat nat) : bool :=
+  match a, b with
+  | TArr _ _ x, TArr _ _ y => Nat.eqb x y
+  | TDoc _ _ x, TDoc _ _ y => Nat.eqb x y
+  | TInt _ _ x, TInt _ _ y => Z.eqb x y
+  | TFloat _ _ x, TFloat _ _ y => Qc_eqb x y
+  | TStr _ _ x, TStr _ _ y => String.eqb x y
+  | TNone _ _, TNone _ _ => true
+  | TBool _ _ x, TBool _ _ y => Bool.eqb x y
+  | TList _ _ l, TList _ _ m =>
+      (fix go (l m : list (tree nat nat)) : bool :=
+         match l, m with
+         | [], [] => true
+         | x :: xs, y :: ys => itree_eqb x y && go xs ys
+         | _, _ => false
+         end) l m
+  | TDict _ _ l, TDict _ _ m =>
+      (fix go (l m : list (string * tree nat nat)) : bool :=
+         match l, m with
+         | [], [] => true
+         | (k, x) :: xs, (k', y) :: ys => String.eqb k k' && itree_eqb x y && go xs ys
+         | _, _ => false
+         end) l m
+  | _, _ => false
+  end.
+
+Definition info_ok (before emitted after : tree nat nat) : bool :=
+  itree_eqb (InfoSer.serialize nat nat (fun a => a) before) emitted
+  && match InfoSer.deserialize nat nat (fun d => d) emitted with
+     | Some t => itree_eqb t after
+     | None => false
+     end
+  && itree_eqb (norm nat nat before) after.
+
 Definition check (c : case) : bool :=
   match c with
   | KBqm n vt0 vt1 before vec after =>
@@ -82,4 +131,5 @@ Definition check (c : case) : bool :=
       jarr_eqb (replace_float_with_int a) j
       && farr_eqb (jarr_val j) back
       && farr_eqb a back
+  | KInfo before emitted after => info_ok before emitted after
   end.
